@@ -52,6 +52,11 @@ def cases(tier):
                         continue
                     out.append({'family': 'cf1d', 'ny': a, 'nx': b, 'lat_kind': lat_kind, 'lon_kind': lon_kind,
                                 'bounds': bnds, 'names': names, 'coords_as': coords_as})
+        # coordinates stored as integers or float32 (derived bounds must not inherit the storage type)
+        for lat_kind, lon_kind in (('int', 'intdesc'), ('intdesc', 'int'), ('float32', 'int'), ('int', 'float32')):
+            for bnds in ('none', 'var'):
+                out.append({'family': 'cf1d', 'ny': a, 'nx': b, 'lat_kind': lat_kind, 'lon_kind': lon_kind,
+                            'bounds': bnds, 'names': 'dim', 'coords_as': 'coord'})
         for family in ('cf2d', 'shoc_simple'):
             for geometry in ('rect', 'skew', 'rot'):
                 for bnds in ('stored', 'derived'):
@@ -125,6 +130,22 @@ def run_case(case):
 
 
 def check_dataset(rec, fp, case, ds, truth):
+    snapshot = ds.copy(deep=True)
+    check_dataset_once(rec, fp, case, ds, truth)
+    rec.check(ds.identical(snapshot), f"{fp}/dataset-modified", "building the geometry modified the dataset", 'unchanged', 'changed')
+    if truth.defined:
+        try:
+            again = lib(lambda: list(ds.copy().ems.polygons))
+            first = list(ds.ems.polygons)
+            same = len(again) == len(first) and all((a is None and b is None) or (a is not None and b is not None and a.equals(b))
+                                                    for a, b in zip(again, first))
+            rec.check(same, f"{fp}/second-look-differs", "polygons of a copy of the dataset differ from the first look", 'same', 'different')
+        except LibraryRaised:
+            rec.step()
+    return rec.result()
+
+
+def check_dataset_once(rec, fp, case, ds, truth):
     try:
         convention = lib(lambda: ds.ems)
     except LibraryRaised as err:
